@@ -43,7 +43,11 @@ def similarity (round32 : α → α) (g : AggGraph α) (node1 node2 : Nat) : Opt
   let a := wOf g.outW node1 * wOf g.inW node2
   let b := wOf g.outW node2 * wOf g.inW node1
   let den := a + b
-  if (0 : α) < den then some (round32 (2 * getEntry g.nb node1 node2 / den)) else none
+  -- `den = 0` with a positive edge weight (the products of node weights underflow): `+inf` (repaired code, F26: it was
+  -- `-inf`, which broke the nearest-neighbour chain — KeyError); in `Float` the quotient by `0` *is* `+inf`
+  if (0 : α) < den then some (round32 (2 * getEntry g.nb node1 node2 / den))
+  else if (0 : α) < getEntry g.nb node1 node2 then some (round32 (2 * getEntry g.nb node1 node2 / den))
+  else none
 
 /-- `sim > max_sim` with `none` = `-inf` -/
 def simGt : Option α → Option α → Bool
